@@ -3,6 +3,8 @@ package main
 import (
 	"encoding/json"
 	"fmt"
+	"go/constant"
+	"go/types"
 	"os"
 	"os/exec"
 	"path/filepath"
@@ -174,6 +176,29 @@ func runOverlayTest(repo, pkgDir, testFile, asName, run string) (output string, 
 	return string(b), err != nil, "cd " + repo + " && go " + strings.Join(args, " ") + "   (overlay: " + asName + " -> " + testFile + ")"
 }
 
+func runOverlayTests(repo, pkgDir string, files map[string]string, run string) (output string, failed bool, cmdline string) {
+	tmp, err := os.MkdirTemp("", "govc-replay")
+	if err != nil {
+		return err.Error(), false, ""
+	}
+	defer os.RemoveAll(tmp)
+	rep := map[string]string{}
+	var names []string
+	for as, f := range files {
+		rep[filepath.Join(repo, pkgDir, as)] = f
+		names = append(names, as+" -> "+f)
+	}
+	data, _ := json.Marshal(map[string]map[string]string{"Replace": rep})
+	ovf := filepath.Join(tmp, "overlay.json")
+	os.WriteFile(ovf, data, 0o644)
+	args := []string{"test", "-overlay", ovf, "-vet=off", "-count=1", "-timeout", "120s", "-run", run, "./" + pkgDir}
+	cmd := exec.Command("go", args...)
+	cmd.Dir = repo
+	cmd.Env = append(os.Environ(), "GOFLAGS=-mod=mod", "GOPROXY=off", "GOSUMDB=off", "GOTOOLCHAIN=local")
+	b, err := cmd.CombinedOutput()
+	return string(b), err != nil, "cd " + repo + " && go " + strings.Join(args, " ") + "   (overlay: " + strings.Join(names, ", ") + ")"
+}
+
 func tail(s string, n int) string {
 	if len(s) > n {
 		return "..." + s[len(s)-n:]
@@ -181,6 +206,151 @@ func tail(s string, n int) string {
 	return s
 }
 
-func runCommute(p *Program, u *Universe, pc *PropConfig, res *checkResult, tier string) {}
-func runLogOnly(p *Program, pc *PropConfig, res *checkResult)                          {}
-func runNondetScan(p *Program, pc *PropConfig, res *checkResult)                       {}
+
+// runNondetScan (C11.4): values that differ from run to run (wall clock, random numbers,
+// pointer formatting) may flow only into the timing fields of the result and into log output.
+func runNondetScan(p *Program, pc *PropConfig, res *checkResult) {
+	isSource := func(f *ssa.Function) bool {
+		if f == nil {
+			return false
+		}
+		n := f.String()
+		return n == "time.Now" || n == "time.Since" || n == "time.Until" || strings.HasPrefix(n, "math/rand.") || strings.HasPrefix(n, "crypto/rand.") ||
+			strings.HasPrefix(n, "(*math/rand.") || n == "os.Getpid" || n == "runtime.NumGoroutine" || strings.HasPrefix(n, "math/rand/v2.")
+	}
+	timingField := func(fa *ssa.FieldAddr) bool {
+		st := fa.X.Type().Underlying().(*types.Pointer).Elem()
+		s := types.TypeString(st, func(p *types.Package) string { return p.Name() })
+		return s == "data.TimingInfo" || s == "data.TimingEntry"
+	}
+	var report []map[string]interface{}
+	for _, n := range p.funcOrder {
+		fn := p.funcs[n]
+		ord := 0
+		for _, b := range fn.Blocks {
+			for _, ins := range b.Instrs {
+				call, ok := ins.(*ssa.Call)
+				if !ok {
+					// pointer formatting
+					continue
+				}
+				if f := call.Common().StaticCallee(); f != nil && strings.HasPrefix(f.String(), "fmt.") {
+					for _, a := range call.Common().Args {
+						if c, ok := a.(*ssa.Const); ok && c.Value != nil && c.Value.Kind() == constant.String && strings.Contains(constant.StringVal(c.Value), "%p") {
+							res.obligations++
+							addViolationLine(res, fmt.Sprintf("VIOLATION property=%s replay=%s no-failing-input-found", pc.ID, writeSimpleReplay(pc.ID, n, "nondet@pointer-format", "a pointer is formatted with %p in "+n)))
+						}
+					}
+				}
+				if !isSource(call.Common().StaticCallee()) {
+					continue
+				}
+				name := fmt.Sprintf("nondet@%s#%d", call.Common().StaticCallee().Name(), ord)
+				ord++
+				bad := ""
+				seen := map[ssa.Value]bool{}
+				var follow func(v ssa.Value, depth int)
+				follow = func(v ssa.Value, depth int) {
+					if seen[v] || bad != "" || depth > 12 {
+						return
+					}
+					seen[v] = true
+					refs := v.Referrers()
+					if refs == nil {
+						return
+					}
+					for _, r := range *refs {
+						switch x := r.(type) {
+						case *ssa.DebugRef:
+						case *ssa.Phi:
+							follow(x, depth+1)
+						case *ssa.Extract:
+							follow(x, depth+1)
+						case *ssa.MakeInterface:
+							follow(x, depth+1)
+						case *ssa.ChangeType:
+							follow(x, depth+1)
+						case *ssa.Convert:
+							follow(x, depth+1)
+						case *ssa.Store:
+							if x.Val != v {
+								continue
+							}
+							switch a := x.Addr.(type) {
+							case *ssa.FieldAddr:
+								if !timingField(a) {
+									bad = "stored into " + exprName(a)
+								}
+							case *ssa.Alloc:
+								follow(a, depth+1) // local variable: follow its loads
+							case *ssa.IndexAddr:
+								// varargs of a logging call: follow the slice
+								follow(a.X, depth+1)
+							default:
+								bad = "stored through " + exprName(x.Addr)
+							}
+						case *ssa.UnOp:
+							follow(x, depth+1)
+						case *ssa.Slice:
+							follow(x, depth+1)
+						case *ssa.IndexAddr:
+							follow(x, depth+1)
+						case *ssa.BinOp:
+							bad = "used in arithmetic/comparison " + x.String()
+						case *ssa.Call:
+							cc := x.Common()
+							f := cc.StaticCallee()
+							fname := ""
+							if f != nil {
+								fname = f.String()
+							} else if cc.IsInvoke() {
+								fname = cc.Method.FullName()
+							}
+							switch {
+							case strings.HasPrefix(fname, "(time.Time).Sub"), fname == "time.Since":
+								follow(x, depth+1)
+							case strings.Contains(fname, "data.TimingInfo).AddEntry"), strings.Contains(fname, "TimingInfo"):
+							case strings.Contains(fname, "Logger") || strings.Contains(fname, "logrus") || strings.Contains(fname, "printLog") || strings.Contains(fname, "Print"):
+							case strings.HasPrefix(fname, "(time.Duration)."), strings.HasPrefix(fname, "(time.Time).String"), strings.HasPrefix(fname, "fmt.Sprint"):
+								follow(x, depth+1)
+							default:
+								bad = "passed to " + fname
+							}
+						case *ssa.Return:
+							bad = "returned from " + n
+						case *ssa.If:
+							bad = "branched on"
+						default:
+							bad = fmt.Sprintf("used by %T", r)
+						}
+					}
+				}
+				follow(call, 0)
+				entry := map[string]interface{}{"function": n, "obligation": name}
+				if bad == "" {
+					res.obligations++
+					res.discharged++
+					res.perSolver["govc-nondet"]++
+					entry["verdict"] = "flows only into timing fields / log output"
+				} else {
+					res.obligations++
+					entry["verdict"] = "refuted: " + bad
+					addViolationLine(res, fmt.Sprintf("VIOLATION property=%s replay=%s no-failing-input-found", pc.ID, writeSimpleReplay(pc.ID, n, name, "a run-dependent value (clock/random) is "+bad)))
+					res.violations = append(res.violations, n+" "+name+": run-dependent value "+bad)
+				}
+				report = append(report, entry)
+			}
+		}
+	}
+	res.extra["nondeterminism_sources"] = report
+}
+
+func writeSimpleReplay(id, fn, ob, desc string) string {
+	dir := filepath.Join(verifDir, "replays", id)
+	os.MkdirAll(dir, 0o755)
+	path := filepath.Join(dir, sanitize(fn+"__"+ob)+".json")
+	rec := map[string]interface{}{"property": id, "function": fn, "obligation": ob, "description": desc, "verdict": "refuted (static flow rule)", "backend": "govc-static", "solver_output": desc, "concrete_failing_input": false}
+	data, _ := json.MarshalIndent(rec, "", " ")
+	os.WriteFile(path, data, 0o644)
+	return path
+}
